@@ -98,7 +98,7 @@ example : isAscii wLongSecret = false := by decide
 -- the Kelvin sign is harmless: `K.t` lowers to `k.t`, so it selects the policy of `k.t`
 example : choose false [⟨[.sni [[107, 46, 116]]], false, true⟩, ⟨[], false, false⟩] ⟨[129, 46, 116], fun _ => false⟩ = .config 0 := by decide
 
-/-! ### a wildcard host route matches an EMPTY left-most label, the TLS wildcard matcher does not -/
+/-! ### regression: a wildcard host route used to match an EMPTY label, the TLS wildcard matcher never did -/
 
 def wWildSecret : Bytes := [42, 46] ++ wSecret     -- "*.secret.test"
 def wDotSecret : Bytes := 46 :: wSecret            -- ".secret.test"
@@ -106,23 +106,49 @@ def wDotSecret : Bytes := 46 :: wSecret            -- ".secret.test"
 /-- client-auth policy for `*.secret.test`, then a catch-all without client auth -/
 def wWildPolicies : List Policy := [⟨[.sni [wWildSecret]], false, true⟩, ⟨[], false, false⟩]
 
-/-- negation of the no-bypass clause for a WILDCARD client-auth site: strict SNI-Host is on by
-    default, SNI `.secret.test` is ASCII, bracket-free and equal to the Host, yet the connection gets
-    the catch-all policy 1 (MatchWildcard skips the empty label) while the request is routed to the
-    site `*.secret.test` (MatchHost lets `*` match the empty label), whose proper instances get the
-    client-auth policy 0.  Reproduced with a real handshake (wildcard certificate loaded). -/
-theorem wildcard_empty_label_full_fails :
+/-- the label loop as it was before the host-matcher fix: `*` matched ANY label, an empty one too -/
+def labelsMatchOld : List Bytes → List Bytes → Bool
+  | [], [] => true
+  | p :: ps, l :: ls =>
+    if p = [cStar] then labelsMatchOld ps ls
+    else if equalFold p l then labelsMatchOld ps ls
+    else false
+  | _, _ => false
+
+def hostMatchOld (rh site : Bytes) : Bool :=
+  if site.contains cStar then labelsMatchOld (splitDot site) (splitDot rh) else equalFold rh site
+
+def routeFromOld (k : Nat) (rh : Bytes) : List Bytes → Option Nat
+  | [] => none
+  | s :: ss => if hostMatchOld rh s then some k else routeFromOld (k + 1) rh ss
+
+/-- `serve` with the old host matcher -/
+def serveWildOld (strict : Bool) (sites : List Bytes) (tlsSNI : Option Bytes) (host : Bytes) : Served :=
+  match tlsSNI with
+  | none => .handler (routeFromOld 0 (routingHost host) sites)
+  | some sni =>
+    if strict && !(isAscii sni && equalFold sni (enforcementHost host)) then .misdirected
+    else .handler (routeFromOld 0 (routingHost host) sites)
+
+/-- with the old host matcher the no-bypass clause failed for a WILDCARD client-auth site: strict
+    SNI-Host on by default, SNI `.secret.test` ASCII, bracket-free and equal to the Host, yet the
+    connection gets the catch-all policy 1 (MatchWildcard skips the empty label) while the request
+    was routed to the site `*.secret.test`, whose proper instances get the client-auth policy 0.
+    Reproduced then with a real handshake (wildcard certificate loaded); regression lines in corpus/C19. -/
+theorem wildcard_empty_label_old_code_fails :
     ∃ (ps : List Policy) (sites : List Bytes) (sni host : Bytes) (v : Nat → Bool) (k : Nat),
       (∃ p ∈ ps, p.clientAuth = true) ∧ noBrackets sni = true ∧ isAscii sni = true ∧
-      serve (effectiveStrict none ps) sites (some sni) host = .handler (some k) ∧
+      serveWildOld (effectiveStrict none ps) sites (some sni) host = .handler (some k) ∧
       sites[k]? = some wWildSecret ∧
       choose false ps ⟨sni, v⟩ = .config 1 ∧
       choose false ps ⟨120 :: sni, v⟩ = .config 0 :=
   ⟨wWildPolicies, [wWildSecret], wDotSecret, wDotSecret, fun _ => false, 0,
     ⟨_, List.mem_cons_self .., rfl⟩, by decide, by decide, by decide, by decide, by decide, by decide⟩
 
-example : hostMatch wDotSecret wWildSecret = true ∧ matchWildcard wDotSecret wWildSecret = false := by decide
+-- now the empty label is not matched on either side; a proper instance is matched on both
+example : hostMatch wDotSecret wWildSecret = false ∧ matchWildcard wDotSecret wWildSecret = false := by decide
 example : hostMatch (120 :: wDotSecret) wWildSecret = true ∧ matchWildcard (120 :: wDotSecret) wWildSecret = true := by decide
+example : serve (effectiveStrict none wWildPolicies) [wWildSecret] (some wDotSecret) wDotSecret = .handler none := by decide
 
 /-! ### `Active()` is not stable under provisioning -/
 
@@ -150,9 +176,6 @@ theorem swallowed_ca_load_error :
 def witnessLines : List String := [
   "C19 pol 0 -/~/~;-/612e74657374/~;-/7a7a2e74657374/~;-/7a7a2e74657374/~;-/7a7a2e74657374/~;-/7a7a2e74657374/~;-/7a7a2e74657374/~;-/7a7a2e74657374/~;-/7a7a2e74657374/~;-/7a7a2e74657374/~;-/7a7a2e74657374/~;-/7a7a2e74657374/~;-/7a7a2e74657374/~;-/7a7a2e74657374/~;-/7a7a2e74657374/~;-/7a7a2e74657374/~;-/7a7a2e74657374/~;-/7a7a2e74657374/~;-/7a7a2e74657374/~;-/7a7a2e74657374/~;-/7a7a2e74657374/~;-/7a7a2e74657374/~;-/7a7a2e74657374/~;-/7a7a2e74657374/~;-/7a7a2e74657374/~;-/7a7a2e74657374/~;-/7a7a2e74657374/~;-/7a7a2e74657374/~;-/7a7a2e74657374/~;-/7a7a2e74657374/~;-/7a7a2e74657374/~ 612e74657374/0/6/1000011010111110",
   "C19 enf t . 7365637265742e74657374 1/5b7365637265742e746573745d/5b7365637265742e746573745d",
-  -- wildcard client-auth site, SNI = Host = ".secret.test": model-level and through a real handshake (known finding)
-  "C19 enf n C/2a2e7365637265742e74657374/~;-/~/~ 2a2e7365637265742e74657374 1/2e7365637265742e74657374/2e7365637265742e74657374",
-  "C19 e2e 3 p1 2e7365637265742e74657374 2e7365637265742e74657374",
   -- verifier-only block (Active() flips with provisioning) and a CA file that does not load
   "C19 ca 1000010",
   "C19 ca 1002000"
